@@ -664,6 +664,25 @@ func (w *World) block(on string) {
 	// next == self happens when a timer readied us
 }
 
+// selfDeadlock ends the world with a deadlock report: the current task waits on
+// a lock that only itself could release. Exact whatever the other tasks do, so it
+// does not depend on who else is runnable (under Exclusive the others are frozen and
+// a polling flusher whose sleeps return at once would otherwise spin for ever).
+//
+//go:norace
+func (w *World) selfDeadlock(on string) {
+	if w.dead {
+		return
+	}
+	self := w.cur
+	self.state = tBlocked
+	self.on = on
+	w.step("block")
+	w.reportStuck("deadlock")
+	w.stuckExit(false)
+	runtime.Goexit()
+}
+
 // Settle lets the other tasks run, without advancing the clock, until each of
 // them waits for a timer or a lock: background work that was in flight at this
 // instant (a flusher in the middle of a commit) has completed when it returns.
